@@ -119,8 +119,22 @@ var moduleNameByAddr = func() map[string]string {
 
 // NewDistrRun installs cfg into a fresh case context.  withFaults builds a second keeper on the
 // app's own store with the wrapped bank.
+// distrSendSwitch: position of the bank's send-enabled switch in the worlds of the running case
+// ("" = transfers enabled; "default" = default_send_enabled false; otherwise the one denomination
+// whose transfers are switched off).  It governs transfers signed by users, never the module's payouts.
+var distrSendSwitch string
+
 func NewDistrRun(t failer, cfg DCfg, denoms []string) *DistrRun {
 	w, ctx := Case()
+	if distrSendSwitch != "" {
+		bp := w.App.BankKeeper.GetParams(ctx)
+		if distrSendSwitch == "default" {
+			bp.DefaultSendEnabled = false
+		} else {
+			bp = bp.SetSendEnabledParam(distrSendSwitch, false)
+		}
+		w.App.BankKeeper.SetParams(ctx, bp)
+	}
 	r := &DistrRun{W: w, Ctx: ctx, Cfg: cfg, Denoms: denoms, groups: map[string][]DAcc{}}
 	r.Bank = &FaultBank{BankKeeper: w.App.BankKeeper, Hits: map[string]int{}}
 	k := distrkeeper.NewKeeper(w.App.AppCodec(), w.App.GetKey(distrtypes.StoreKey), w.App.GetMemKey(distrtypes.MemStoreKey),
